@@ -380,6 +380,17 @@ def check(run: Run) -> None:
                             keyed = True
                         if keyed:
                             tests.append(c)
+        # the same decision made on the RAW value before converting it: `if not value: continue` / `if not section.value: continue`
+        # in a loop over fields (null, 0, false, "" and [] are values)
+        for x in ast.walk(fi.node):
+            if isinstance(x, ast.If) and x.body and all(isinstance(b, (ast.Continue, ast.Pass)) for b in x.body) and not x.orelse:
+                t = x.test
+                neg = isinstance(t, ast.UnaryOp) and isinstance(t.op, ast.Not)
+                core = t.operand if neg else t
+                is_value = (isinstance(core, ast.Attribute) and core.attr == "value") or (isinstance(core, ast.Name) and core.id in ("value", "val", "v", "field_value"))
+                none_test = isinstance(t, ast.Compare) and len(t.ops) == 1 and isinstance(t.ops[0], ast.Is) and isinstance(t.comparators[0], ast.Constant) and t.comparators[0].value is None and ((isinstance(t.left, ast.Attribute) and t.left.attr == "value") or (isinstance(t.left, ast.Name) and t.left.id in ("value", "val", "v")))
+                if (neg and is_value) or none_test:
+                    tests.append(t)
         n8 += 1
         run.instance("R14.8", fi.module.loc(fi.node), f"{fi.qualname}: {len(holds)} local(s) hold converted values; none is tested for None / truthiness", ok=not tests, nontrivial=bool(holds))
         for c in tests:
